@@ -43,6 +43,14 @@ def refresh_before_use(F, R):
                 dom(R, b, r_, u_, 'update_connections<%s' % use.split('::')[-1].rstrip('$'), '%s: ports connected while registered are known before data moves' % label)
         if not done:
             R.ob('DOM', 'DOM::%s::update_connections<use' % fnkey(f), False, 'anchor-missing: no %s call in %s' % (use, label), f.file, f)
+    # has_samples() is the observation point for "receive() would return a sample": it must look at every connection receive() drains,
+    # including connections of publishers that already left (to-be-removed connections still hold undelivered samples)
+    for f in F.find_fns(r'^iceoryx2::port::subscriber::Subscriber::<.*>::has_samples$'):
+        allc = f.calls(r'Receiver::<.*>::has_chunks$')
+        act = f.calls(r'Receiver::<.*>::has_chunks_in_active_connection$')
+        R.ob('FLOW', 'FLOW::%s::observes-every-connection-receive-drains' % fnkey(f), bool(allc) and not act,
+             'has_samples() asks Receiver::has_chunks (%d call(s)) and not has_chunks_in_active_connection (%d call(s)): samples of a publisher that disconnected are still receivable and must be reported' % (len(allc), len(act)),
+             (allc + act)[0].where if (allc + act) else f.file, f)
     # response side: ResponseMut::send / PendingResponse::receive refresh inside their shared-state closures
     for fpat, use, label in ((r'^iceoryx2::response_mut::ResponseMut::<.*>::send', r'Sender::<.*>::deliver_offset_to_connection$', 'response send'),
                              (r'^iceoryx2::pending_response::PendingResponse::<.*>::receive_impl', r'Receiver::<.*>::receive$', 'pending response receive')):
